@@ -5,6 +5,10 @@ V = os.path.dirname(os.path.dirname(os.path.abspath(__file__)))
 props = [json.loads(l) for l in open(os.path.join(V, "properties.jsonl"))]
 
 CLAIMED = {
+ "C02": dict(
+  technique="model-based generation of balanced/unbalanced transactions with rapid; published verdicts compared with the exact balance rule in rational arithmetic",
+  text="Transactions are constructed in the model with known exact sums (free postings of the three kinds with unit/total costs in every number notation, then completed to balanced-by-cancelling, balanced-by-one-amountless, unbalanced by a chosen exact residual in one commodity, or several amountless postings). The document goes through didOpen; per transaction UNBALANCED / MULTIPLE_INFERRED must be present exactly when the rule of the property says so (math/big rationals over the model), never both, and the per-commodity differences parsed from the message must equal the true absolute residuals as a set.",
+  note="Restricted, as the quantifier says, to transactions where hledger's rule and the exact-sum rule agree: residuals sit in exactly one commodity (no price inference) and are written with their own precision; zero quantities with costs are not generated. The order of commodities in the message is C15's concern."),
  "C03": dict(
   technique="model-based generation from grammar G with rapid; parse result compared field by field with the model the text was rendered from",
   text="Journals are generated as structures (transactions, postings, exact quantities, directives) and rendered to text with generated spellings (date separators, description classes, number notations, sign and commodity placement, spacing, LF/CRLF). parser.Parse must report no error, the server must publish no diagnostic without a code, and every field of the extracted tree (dates, status, code, description/payee/note, accounts, exact quantities, commodities and side, costs, assertions, comments, tags, directive payloads with formats compared semantically, include paths, counts) must equal the model.",
